@@ -5,8 +5,8 @@ VERIF = os.path.dirname(os.path.dirname(os.path.abspath(__file__)))
 props = [json.loads(l) for l in open(os.path.join(VERIF, "properties.jsonl"))]
 
 CLAIMS = {}
-def claim(pid, technique, text, note, design_ref):
-    CLAIMS[pid] = dict(technique=technique, text=text, note=note, design_ref=design_ref)
+def claim(pid, technique, text, note, design_ref, category="proof"):
+    CLAIMS[pid] = dict(technique=technique, text=text, note=note, design_ref=design_ref, category=category)
 
 NA = {
  "C15": "timeline! is a syn parser + quote! emitter running inside rustc on proc_macro types; neither Verus nor Kani can load proc_macro/syn, and 'the emitted tokens, once compiled, behave as the builder chain' is not a postcondition over values either tool represents (DESIGN.md section 5, C15). Comparing expansions for chosen sentences would be translation validation, a different family.",
@@ -14,6 +14,9 @@ NA = {
 }
 
 exec(open(os.path.join(VERIF, "tools", "manifest_claims.py")).read())
+for _p in ("C11", "C12", "C17"):
+    if _p in CLAIMS:
+        CLAIMS[_p]["category"] = "other"
 
 checks = []
 for p in props:
@@ -27,7 +30,7 @@ for p in props:
             "evidence_file": "/verif/evidence/%s.json" % pid,
             "replay_cmd_template": "./check %s --replay {path}" % pid,
             "engine": "contracts",
-            "level_claimed": {"category": "proof", "text": c["text"], "design_ref": c["design_ref"]},
+            "level_claimed": {"category": c.get("category", "proof"), "text": c["text"], "design_ref": c["design_ref"]},
             "level_note": c["note"],
             "technique": c["technique"],
         })
